@@ -52,6 +52,10 @@ type Case struct {
 	// CtxCheck: before the gates are opened, every call whose context has ended
 	// must have returned (C08); results in Result.HungCtx.
 	CtxCheck bool `json:"ctx_check,omitempty"`
+	// CloseCheck: the program contains close ops; after the threads are done every
+	// call must have returned while the handlers are still held, and the manager's
+	// goroutines must be gone (C12).
+	CloseCheck bool `json:"close_check,omitempty"`
 	// ProbeMgrs restricts which managers probe (empty = all).
 	ProbeMgrs []int `json:"probe_mgrs,omitempty"`
 	// Drain: before pending calls are cancelled at the end, wait until every
@@ -86,17 +90,21 @@ type Probe struct {
 
 // Result of a run.
 type Result struct {
-	Events    []scen.Event
-	Calls     []CallInfo
-	IDs       [][]uint32 // per manager: node id per server
-	Hung      []string   // calls that did not end: "call <idx> <kind>: <signature>"
-	HungCtx   []string   // calls that did not return although their context had ended (checked while nodes still misbehave)
-	BadCtxErr []string   // calls that returned an error not matching their ended context
-	Late      bool
-	Probes    []Probe
-	SetupErr  string
-	Clients   []*scen.Client
-	Cluster   *scen.Cluster
+	Events         []scen.Event
+	Calls          []CallInfo
+	IDs            [][]uint32 // per manager: node id per server
+	Hung           []string   // calls that did not end: "call <idx> <kind>: <signature>"
+	HungCtx        []string   // calls that did not return although their context had ended (checked while nodes still misbehave)
+	BadCtxErr      []string   // calls that returned an error not matching their ended context
+	CloseHung      string     // Close did not return: hang signature
+	ClosePanic     string     // Close panicked
+	HungAfterClose []string   // calls that did not return after Close returned
+	Residue        []string   // goroutines of the closed manager that remain
+	Late           bool
+	Probes         []Probe
+	SetupErr       string
+	Clients        []*scen.Client
+	Cluster        *scen.Cluster
 	// Residue is filled by runs that ask for it (C18)
 	Routers    map[string]int
 	Goroutines []string
@@ -162,6 +170,13 @@ func Run(c Case, h Hooks) Result {
 		}
 	}()
 	var floodMu sync.Mutex
+	before := map[string]bool{}
+	if c.CloseCheck {
+		for _, g := range scen.Stacks() {
+			before[g.ID] = true
+		}
+	}
+	var closeMu sync.Mutex
 	var clients []*scen.Client
 	defer func() {
 		cl.OpenAll()
@@ -229,6 +244,36 @@ func Run(c Case, h Hooks) Result {
 				case op.Thread%nthreads != t:
 				case op.Kind == "sleep":
 					time.Sleep(time.Duration(op.Us) * time.Microsecond)
+				case op.Kind == "close":
+					client := clients[op.Mgr%len(clients)]
+					k := op.Us
+					if k < 1 {
+						k = 1
+					}
+					cl.Log.Add(scen.Event{Kind: "close_begin", Call: -1, Server: -1})
+					cdone := make(chan struct{})
+					var cwg sync.WaitGroup
+					for j := 0; j < k; j++ {
+						cwg.Add(1)
+						go func() {
+							defer cwg.Done()
+							defer func() {
+								if r := recover(); r != nil {
+									closeMu.Lock()
+									res.ClosePanic = fmt.Sprint(r)
+									closeMu.Unlock()
+								}
+							}()
+							client.Mgr.Close()
+						}()
+					}
+					go func() { cwg.Wait(); close(cdone) }()
+					if r, sig := scen.Await(cdone, scen.B); r == scen.Hung {
+						closeMu.Lock()
+						res.CloseHung = sig
+						closeMu.Unlock()
+					}
+					cl.Log.Add(scen.Event{Kind: "close_end", Call: -1, Server: -1})
 				case op.Kind == "flood":
 					// background one-way traffic to one node (its context lives until the end of the case)
 					client := clients[op.Mgr%len(clients)]
@@ -318,6 +363,50 @@ func Run(c Case, h Hooks) Result {
 			case scen.Late:
 				res.Late = true
 			}
+		}
+	}
+	if c.CloseCheck {
+		// every call returns although the handlers are still held
+		for _, ci := range res.Calls {
+			select {
+			case <-ci.Call.IssuedCh():
+			default:
+				if !threadsDone {
+					continue
+				}
+			}
+			if len(res.HungAfterClose) > 0 {
+				select {
+				case <-ci.Call.DoneCh():
+				case <-time.After(50 * time.Millisecond):
+					res.HungAfterClose = append(res.HungAfterClose, fmt.Sprintf("call %d %s: (also not returned)", ci.Idx, ci.Kind))
+				}
+				continue
+			}
+			r, sig := scen.Await(ci.Call.DoneCh(), scen.B)
+			switch r {
+			case scen.Hung:
+				res.HungAfterClose = append(res.HungAfterClose, fmt.Sprintf("call %d %s: %s", ci.Idx, ci.Kind, sig))
+			case scen.Late:
+				res.Late = true
+			}
+		}
+		// the manager's goroutines terminate
+		deadline := time.Now().Add(scen.B)
+		for {
+			res.Residue = res.Residue[:0]
+			for _, g := range scen.Stacks() {
+				if before[g.ID] {
+					continue
+				}
+				if w := clientGoroutine(g); w != "" {
+					res.Residue = append(res.Residue, w)
+				}
+			}
+			if len(res.Residue) == 0 || time.Now().After(deadline) || len(res.HungAfterClose) > 0 {
+				break
+			}
+			time.Sleep(2 * time.Millisecond)
 		}
 	}
 	if !c.HoldAtEnd {
@@ -460,4 +549,38 @@ func issueBounded(call *scen.Call) {
 	case <-done:
 	case <-time.After(2*scen.B + time.Second):
 	}
+}
+
+// clientGoroutine classifies a goroutine that belongs to a gorums manager:
+// the per-node sender / receiver / send watcher / reconnect, per-call
+// async and correctable handlers, and grpc's client-side transport goroutines.
+// Server-side goroutines and harness goroutines yield "".
+func clientGoroutine(g scen.Goroutine) string {
+	lf := g.LibFrame()
+	switch {
+	case strings.HasPrefix(lf, "(*channel)."), strings.HasPrefix(lf, "RawConfiguration.handle"):
+		return lf + "@" + g.State
+	}
+	cb := g.CreatedBy()
+	if strings.HasPrefix(cb, "github.com/relab/gorums.newChannel") || strings.HasPrefix(cb, "github.com/relab/gorums.(*channel)") ||
+		strings.HasPrefix(cb, "github.com/relab/gorums.RawConfiguration.") {
+		top := g.Frames
+		if len(top) > 4 {
+			top = top[:4]
+		}
+		return "created by " + strings.TrimPrefix(cb, "github.com/relab/gorums.") + "@" + g.State + " [" + strings.Join(top, " < ") + "]"
+	}
+	for _, f := range g.Frames {
+		if strings.Contains(f, "grpc/internal/transport.(*http2Client)") || strings.Contains(f, "grpc/internal/transport.newHTTP2Client") ||
+			strings.Contains(f, "grpc.(*addrConn)") || strings.Contains(f, "grpc.(*ccBalancerWrapper)") || strings.Contains(f, "grpc.(*ccResolverWrapper)") {
+			return "grpc-client:" + strings.TrimPrefix(f, "google.golang.org/grpc") + "@" + g.State
+		}
+		if strings.Contains(f, "grpc/internal/transport.(*loopyWriter)") || strings.Contains(f, "grpcsync.(*CallbackSerializer)") {
+			// shared by client and server side: attribute through the creator
+			if strings.Contains(cb, "newHTTP2Client") || strings.Contains(cb, "grpc.newCCBalancerWrapper") || strings.Contains(cb, "grpc.newCCResolverWrapper") || strings.Contains(cb, "grpc.(*ClientConn)") || strings.Contains(cb, "grpc.newClientConn") || strings.Contains(cb, "grpc.DialContext") {
+				return "grpc-client:" + strings.TrimPrefix(f, "google.golang.org/grpc") + "@" + g.State
+			}
+		}
+	}
+	return ""
 }
